@@ -18,7 +18,7 @@ from vk.checks import c05
 ID = "C06"
 LEVEL = "exploration"
 
-_SPECIAL_BASES = {"Enum", "IntEnum", "Flag", "NamedTuple", "Protocol", "TypedDict", "ABC", "tuple", "Generic"}
+_SPECIAL_BASES = {"Enum", "IntEnum", "Flag", "IntFlag", "StrEnum", "OrderedDict", "defaultdict", "NamedTuple", "Protocol", "TypedDict", "ABC", "tuple", "Generic"}
 BAD_ERRORS = ("import-error", "pyi-error", "module-attr")
 
 
